@@ -19,6 +19,9 @@ class C07(ProgProp):
 
 
     def gen(self, rng, tier, k):
+        if k % 16 == 7:
+            from .. import gen as g
+            return self.motif_case(rng, tier, g.motif_base_hook_fault(rng))
         if k % 16 == 11:
             from .. import gen as g
             # a synchronous call that needs a flush, then an override entered in the same step and
